@@ -1,9 +1,49 @@
-import MaestroVerif.Model.Exec
+import MaestroVerif.Lemmas.ExecDemo
 
-/-! # C20 — Scheduler query faults never corrupt step states (theorems are being added) -/
+/-!
+# C20 — Scheduler query faults never corrupt step states
+-/
 namespace MaestroVerif.C20
 open MaestroVerif.Exec MaestroVerif.Gen
 
-theorem C20_init_not_canceled (cfg : Cfg) : (init cfg).isCanceled = false := rfl
+/-- **If the status query fails the poll raises, having only performed the
+query: no state changes, nothing is generated or submitted.** -/
+theorem C20_error_aborts (cfg : Cfg) (g : G) (p : PollIn) (hd : cfg.dry = false)
+    (hc : p.code = .ERROR) :
+    poll cfg g p = ({ g with log := g.log ++ [Ev.check g.inProgress] }, .raised) :=
+  poll_error cfg g p hd hc
+
+/-- **A `None` answer is the same as no answer**: dropping every `None` entry
+from the scheduler's answer changes nothing at all. -/
+theorem C20_none_is_ignored (cfg : Cfg) (g : G) (p : PollIn) :
+    poll cfg g { p with reports := p.reports.filter (fun r => r.2.isSome) } = poll cfg g p :=
+  poll_ignores_none cfg g p
+
+/-- Non-terminal answers other than RUNNING (PENDING, WAITING, QUEUED, FINISHING,
+NOTFOUND, INCOMPLETE, INITIALIZED, DRYRUN) leave the step exactly as it was. -/
+theorem C20_passive_is_ignored (cfg : Cfg) (g : G) (i : Nat) (s : State) (h : passive s = true) :
+    report cfg g i (some s) = g :=
+  report_passive cfg g i s h
+
+/-- RUNNING only marks the step running -/
+theorem C20_running (cfg : Cfg) (g : G) (i : Nat) :
+    report cfg g i (some .RUNNING) = setStatus g i .RUNNING := by
+  simp [report, terminal]
+
+/-- **With a no-jobs code the answers are not applied at all**: the poll equals
+the poll with an empty answer, whose report pass is the identity. -/
+theorem C20_nojobs_ignores_reports (cfg : Cfg) (g : G) (p : PollIn) (hd : cfg.dry = false)
+    (hc : p.code = .NOJOBS) :
+    poll cfg g p = poll cfg g { code := .NOJOBS, reports := [] } := by
+  simp [poll, hc, hd]
+
+/-- a report concerns only its own step: every other tracked step stays tracked -/
+theorem C20_others_stay_tracked (cfg : Cfg) (g : G) (i : Nat) (st : Option State) {a : Nat}
+    (ha : a ≠ i) (hm : a ∈ g.inProgress) : a ∈ (report cfg g i st).inProgress :=
+  report_inProgress_other cfg g i st ha hm
+
+/-! non-vacuity: the demo history contains a `None` report and a NOJOBS poll -/
+example : (run demoCfg (demoOps.take 4)).inProgress = [2, 3] ∧
+    (run demoCfg (demoOps.take 3)).inProgress = [2, 3] := by decide +kernel
 
 end MaestroVerif.C20
